@@ -44,6 +44,20 @@ func (o Object) FriendlyName() string {
 	return o.Name
 }
 
+func (o Object) Validate() error {
+	for name, attr := range o.Attributes {
+		if attr == nil {
+			continue
+		}
+		if c, ok := attr.Constraint.(Validatable); ok {
+			if err := c.Validate(); err != nil {
+				return fmt.Errorf("Attributes[%q]: %T: %w", name, attr.Constraint, err)
+			}
+		}
+	}
+	return nil
+}
+
 func (o Object) Copy() Constraint {
 	return Object{
 		Attributes:            o.Attributes.Copy(),
